@@ -6,6 +6,7 @@ package engine
 
 import (
 	"fmt"
+	"strings"
 	"testing"
 
 	"github.com/hyperjumptech/grule-rule-engine/ast"
@@ -71,5 +72,75 @@ func TestReplaySearchMemo(t *testing.T) {
 				t.Fatalf("CONFIRMED: %s, rules:\n%s\nfinal value %d (want 3), second rule fired=%v (want true), Execute returned %v: a remembered condition value survived the assignment", p.name, grl, got, f.Calls == 100, res)
 			}
 		}
+	}
+}
+
+// The same location reached through two different selector expressions (its own harness: it demonstrates an open finding and
+// must not mask the search above): the condition reads F.M[F.K] / F.Arr[F.I], the action writes F.M["k"] / F.Arr[1].
+type replayAliasFact struct {
+	K   string
+	I   int64
+	M   map[string]int64
+	Arr []int64
+}
+
+func TestReplaySearchAlias(t *testing.T) {
+	var bad []string
+	for _, sc := range []struct{ name, read, write string }{
+		{"map entry", `F.M[F.K]`, `F.M["k"]`},
+		{"slice element", `F.Arr[F.I]`, `F.Arr[1]`},
+		{"map entry, literal read and computed write", `F.M["k"]`, `F.M[F.K]`},
+	} {
+		grl := fmt.Sprintf("rule Count \"c\" { when %s < 3 then %s = %s + 1; }", sc.read, sc.write, sc.write)
+		lib := ast.NewKnowledgeLibrary()
+		if err := builder.NewRuleBuilder(lib).BuildRuleFromResource("K", "1", pkg.NewBytesResource([]byte(grl))); err != nil {
+			t.Fatalf("build %s: %v", grl, err)
+		}
+		kb, err := lib.NewKnowledgeBaseInstance("K", "1")
+		if err != nil {
+			t.Fatal(err)
+		}
+		f := &replayAliasFact{K: "k", I: 1, M: map[string]int64{"k": 0}, Arr: []int64{0, 0}}
+		d := ast.NewDataContext()
+		d.Add("F", f)
+		e := NewGruleEngine()
+		e.MaxCycle = 30
+		res := e.Execute(d, kb)
+		got := f.M["k"]
+		if sc.name == "slice element" {
+			got = f.Arr[1]
+		}
+		if res != nil || got != 3 {
+			bad = append(bad, fmt.Sprintf("%s: `%s` final value %d (want 3), Execute returned %v", sc.name, grl, got, res != nil))
+		}
+	}
+	// a JSON object's member is the same location in the dot form and in the selector form
+	for _, sc := range []struct{ name, read, write string }{
+		{"JSON member, selector read and dot write", `J.m["k"]`, `J.m.k`},
+		{"JSON member, dot read and selector write", `J.m.k`, `J.m["k"]`},
+	} {
+		grl := fmt.Sprintf("rule Count \"c\" { when %s < 3 then %s = %s + 1; }", sc.read, sc.write, sc.write)
+		lib := ast.NewKnowledgeLibrary()
+		if err := builder.NewRuleBuilder(lib).BuildRuleFromResource("K", "1", pkg.NewBytesResource([]byte(grl))); err != nil {
+			t.Fatalf("build %s: %v", grl, err)
+		}
+		kb, err := lib.NewKnowledgeBaseInstance("K", "1")
+		if err != nil {
+			t.Fatal(err)
+		}
+		d := ast.NewDataContext()
+		if err := d.AddJSON("J", []byte(`{"m":{"k":0}}`)); err != nil {
+			t.Fatal(err)
+		}
+		e := NewGruleEngine()
+		e.MaxCycle = 30
+		res := e.Execute(d, kb)
+		got := fmt.Sprint(d.Get("J").Value().Interface().(map[string]interface{})["m"].(map[string]interface{})["k"])
+		if res != nil || got != "3" {
+			bad = append(bad, fmt.Sprintf("%s: `%s` final value %s (want 3), Execute returned %v", sc.name, grl, got, res != nil))
+		}
+	}
+	if len(bad) > 0 {
+		t.Fatalf("CONFIRMED: %d rule(s) keep firing on a remembered condition after the action wrote the same location through another selector expression: %s", len(bad), strings.Join(bad, " ; "))
 	}
 }
